@@ -316,8 +316,13 @@ def write_evidence(ctx, level, rule, exhaustive=False, extra=None):
         'wall_s': round(time.time() - ctx.t0, 1),
         'violations': len(ctx.violations),
     }
-    os.makedirs(os.path.join(ROOT, 'evidence'), exist_ok=True)
-    with open(os.path.join(ROOT, 'evidence', ctx.prop + '.json'), 'w') as f:
+    # /verif/evidence describes runs against /repo itself; a run against another tree (a seeded change, a reverted fix: VERIF_REPO)
+    # leaves its evidence in a scratch directory of its own
+    edir = os.path.join(ROOT, 'evidence')
+    if os.path.realpath(os.environ.get('VERIF_REPO', '/repo')) != '/repo':
+        edir = os.path.join(ROOT, '.work', 'evidence-other-trees')
+    os.makedirs(edir, exist_ok=True)
+    with open(os.path.join(edir, ctx.prop + '.json'), 'w') as f:
         json.dump(ev, f, indent=1, sort_keys=True)
         f.write('\n')
 
